@@ -407,7 +407,9 @@ class SigmaString(SigmaType):
         return self.to_plain(regex=True)
 
     def __bytes__(self) -> bytes:
-        return str(self).encode()
+        # Bytes of the string's characters: without the backslashes that the plain representation
+        # puts in front of literal '*' and '?'.
+        return self.to_plain(regex=True).encode()
 
     def __len__(self) -> int:
         return sum(
